@@ -9,6 +9,7 @@ import (
 	"fmt"
 	"sort"
 	"sync"
+	"time"
 )
 
 // Violation is one refuting observation.
@@ -40,11 +41,13 @@ type B struct {
 	sigCount     map[string]int
 	inconclusive []string
 	curCase      int
+	start        time.Time
+	cutShort     bool
 }
 
 // NewB creates a collector.
 func NewB(prop, tier string, seed int64, index int) *B {
-	return &B{Property: prop, Tier: tier, Seed: seed, Index: index, Only: -1,
+	return &B{Property: prop, Tier: tier, Seed: seed, Index: index, Only: -1, start: time.Now(),
 		classes: map[string]int64{}, counters: map[string]int64{}, sampleKeys: map[string]bool{}, sigCount: map[string]int{}}
 }
 
@@ -87,8 +90,23 @@ func (b *B) Want(i int) bool {
 		return false
 	}
 	b.mu.Lock()
+	defer b.mu.Unlock()
+	// a batch that has already found a violation does not keep exploring for ever: a broken
+	// tree can make every remaining case very slow (spinning or stuck servers)
+	if len(b.violations) > 0 {
+		limit := 90 * time.Second
+		if b.Tier == "thorough" {
+			limit = 15 * time.Minute
+		}
+		if time.Since(b.start) > limit {
+			if !b.cutShort {
+				b.cutShort = true
+				b.counters["batches_cut_short_after_a_violation"]++
+			}
+			return false
+		}
+	}
 	b.curCase = i
-	b.mu.Unlock()
 	return true
 }
 
